@@ -41,7 +41,9 @@ class C20(Prop):
             'created later in the document, inverse transform pairs, values, device names/passwords, disabled slaves with '
             'pending edits; virtual port ids that have a slave device\'s name as a proper prefix; a hub limit of 6 virtual '
             'ports with source + target together above it), backup = GET x3 on the source, restore = PUT x3 on the differently '
-            'configured target, then the same restore a second time; then one '
+            'configured target, then the same restore a second time; non-virtual writable ports (relay, dimmer) whose enabled '
+            'flag, value and attributes differ between source and target; then corrupted documents for PUT /ports, PUT /devices '
+            '(k-th entry: missing host/port/scheme, wrong types) and PUT /device, each followed by the polling/event probe; one '
             'corrupted document (wrong attribute type / unparsable expression / bad definition in the k-th entry); '
             'non-trivial: source and target differ in >= 1 port set member and >= 1 attribute and the source has an '
             'expression; distinct = distinct source documents')
